@@ -143,6 +143,7 @@ def main():
     common.setup_repo_path()
     import c16_lib
     import c16_nets
+    import c16_opts_nets
     import fbwalk
     import netgen
     import pipeline
@@ -282,7 +283,7 @@ def main():
 
     mark("function level")
     # ---- (b) pipeline level -----------------------------------------------------------------------------------------
-    nets = c16_nets.cases(random.Random(ck.seed * 7919 + 16), ck.thorough)
+    nets = c16_opts_nets.all_cases(random.Random(ck.seed * 7919 + 16), ck.thorough)
     jobs = []
     for idx, (label, net) in enumerate(nets):
         try:
@@ -446,7 +447,7 @@ def main():
                 why = "an operator left on the CPU is not written unchanged"
             ck.violation(f"'{r['label']}' ({' '.join(r['opts'][1:])}): {why}: {pr[:300]}",
                          {"label": r["label"], "opts": r["opts"], "seed": ck.seed, "index": r["idx"], "problems": probs[:2000], "fates": r.get("fates"),
-                          "lean": "VelaVerif.Placement.report (Spec/Placement.lean)"}, found_input=True)
+                          "lean": "VelaVerif.Placement.report (Spec/Placement.lean)"}, found_input=True, key=structure_key(r, kind, pr))
     committed_doc = []
     for (r, k, doc, run, obs, docc, j, jc) in judge2_meta:
         s = r["src"][k]
@@ -490,9 +491,8 @@ def main():
     ck.count("cpu_ops_compared_with_source", len(same_reqs))
     rep_changed = 0
     for (r, so, oo), _a in changed:
-        parts_s, parts_o = so["canon"].split("|"), oo["canon"].split("|")
-        what = [n for n, x, y in zip(("code", "custom code", "options type", "options", "custom options", "inputs", "outputs"), parts_s, parts_o) if x != y]
-        key = f"cpu-op-changed:{so['code']}:{'+'.join(w.replace(' ', '_') for w in what)}"
+        what = c16_lib.canon_diff(so["canon"], oo["canon"])
+        key = f"cpu-op-changed:{so['code']}:{'+'.join(w.replace(' ', '_') for w in what)}" + (":force-symmetric" if "--force-symmetric-int-weights" in r["opts"] else "")
         if ck.finding_key_known(key) is None:
             rep_changed += 1
             if rep_changed > 4:
@@ -618,6 +618,7 @@ def replay(ck, path):
 
     import c16_lib
     import c16_nets
+    import c16_opts_nets
     import fbwalk
     import netgen
 
@@ -641,7 +642,7 @@ def replay(ck, path):
         else:
             print("case not found")
     elif "index" in body:
-        nets = c16_nets.cases(random.Random(seed * 7919 + 16), rp.get("tier") == "thorough")
+        nets = c16_opts_nets.all_cases(random.Random(seed * 7919 + 16), rp.get("tier") == "thorough")
         label, net = nets[int(body["index"])]
         r = _compile_job((seed, int(body["index"]), label, netgen.serialize(net), body["opts"], getattr(net, "tgt", None)))
         print(f"network '{label}' {body['opts']}: {r.get('status')} {r.get('exc', '')}")
@@ -691,6 +692,26 @@ def replay(ck, path):
         print(json.dumps(body, indent=1)[:3000])
     sys.stdout.flush()
     os._exit(1 if bad else 0)
+
+
+def structure_key(r, kind, pr):
+    """key of the one recorded defect the strict comparison also sees (patch C11-20: --force-symmetric-int-weights zeroes the
+    per-axis zero points of CONSTANT weights of a convolution that stays on the CPU), or None.  Given only when the problem is
+    exactly "zero points of operand 1 of builtin 3 / 4 differ", the option is present, and the records of that operator differ in
+    nothing but operand 1's zero points, written as all 0 for a constant per-axis tensor (c16_lib.canon_diff)."""
+    import c16_lib
+
+    m = re.match(r"operand-quantisation\|operator \d+ \(builtin (3|4)\) operand 1 \(zero-point\) [0-9a-f]*$", pr.strip())
+    if kind != "operand-quantisation" or not m or "--force-symmetric-int-weights" not in r["opts"]:
+        return None
+    code = int(m.group(1))
+    for o in r.get("out_records", []):
+        if o["code"] != code:
+            continue
+        for so in [x for x in r.get("src_records", []) if x["code"] == code and x["outs"] == o["outs"]]:
+            if c16_lib.canon_diff(so["canon"], o["canon"]) == ["operand1-zero-points-zeroed-const-per-axis"]:
+                return f"cpu-op-changed:{code}:operand1-zero-points-zeroed-const-per-axis:force-symmetric"
+    return None
 
 
 # keys of known_findings.txt for placement differences of the unchanged tree (see design.d/C16.md)
